@@ -346,6 +346,7 @@ func c12Check(o *hx.Obs, c c12Case, log *recLog, apiErr error, panicTxt string, 
 }
 
 func c12Run(c c12Case, o *hx.Obs) {
+	schemaClasses(o, c.Module)
 	mm, err := loadDM(c.Module)
 	if err != nil {
 		o.Failf("harness|schema-rejected", "%v", err)
